@@ -22,7 +22,7 @@ THEOREMS = ["Kdf.Props.C04." + t for t in (
     "fresh_answer", "history_irrelevant", "reads_only_transparent", "zero_excluded_transparent",
     "rinv_init", "getCacheBuf_spec", "bury_spec", "readcache_transparent",
     "lastload_irrelevant", "lastload_history", "loadsDisjoint_sorted", "lastload_irrelevant_code",
-    "lkcd_scan_irrelevant", "lkcd_history", "lkcd_fresh_spec", "policy_irrelevant", "policy_bytes")]
+    "lkcd_scan_irrelevant", "lkcd_history", "lkcd_fresh_spec", "policy_irrelevant", "policy_bytes", "policy_irrelevant_behind_eof", "policy_eof_counterexample")]
 VOFF = 0xffff880000000000
 ATTRS = ["arch.name", "arch.page_size", "max_pfn", "file.format", "linux.uts.release", "arch.byte_order", "cpu.number"]
 OBSERVED = ("read", "str", "attr", "bits", "fset", "fclr")
@@ -582,6 +582,53 @@ def run(R):
         if res["fail"]:
             kind, msg, small, err = res["fail"]
             report(R, L, kind, msg, small, err, proof)
+    # section 5 of the model (mmap versus read): the real fcache_get on files of every size around the page and window
+    # boundaries, all four policies; the bytes are the file's, behind the end every policy refuses (block 0 of an empty
+    # file is the one exception, policy_eof_counterexample) -- compared with Kdf.Model.Hist.fcacheGet line by line
+    fl, fmeta = [], []
+    rngf = R.rng
+    for _ in range(12 if R.tier == "quick" else 150):
+        size = rngf.choice([0, 1, 100, 4095, 4096, 4097, 8191, 8192, 8193, 12288, 12300, rngf.randrange(0, 20000)])
+        data = bytes(rngf.getrandbits(8) | 1 for _ in range(size))
+        fl.append("fcfile " + (data.hex() or "-")); fmeta.append(None)
+        pts = sorted({0, 1, 4095, 4096, 8191, 8192, 8193, 12288, max(size - 1, 0), size, size + 1, (size // 4096) * 4096, (size // 4096 + 1) * 4096,
+                      (size // 4096 + 2) * 4096 + 7, rngf.randrange(0, 24000)})
+        for pos in pts:
+            for pol in (0, 1, 2, 3):
+                n = rngf.choice([1, 16, 4096 - pos % 4096])
+                n = min(n, 4096 - pos % 4096)
+                fl.append("fcget %d %d %d" % (pol, pos, n)); fmeta.append((data, pol, pos, n))
+    libq, cfq = R.build_lib()
+    exef = R.build_harness("s_fcget", ["s_fcget.c"], lib=libq, cflags=cfq)
+    rcf, outf, errf = R.run_harness(exef, stdin_text="\n".join(fl) + "\n")
+    fimpl = kdf.obs(outf)
+    fmodel = kdf.obs(R.run_driver("hist", "\n".join(fl) + "\n"))
+    fq = [m for m in fmeta if m]
+    if not failed:
+        if rcf != 0 or len(fimpl) != len(fq):
+            R.violation("fcache_get harness stopped after %d of %d (rc=%s): %s" % (len(fimpl), len(fq), rcf, errf.strip()[:300]),
+                        dict(stream="hist/fcget", stderr=errf[-1200:]))
+            failed = True
+        else:
+            for (data, pol, pos, n), o in zip(fq, fimpl):
+                blk = pos // 4096 * 4096
+                inside = blk < len(data)
+                exp = (data[pos:pos + n] + bytes(n))[:n].hex()
+                w = o.split()
+                ok = (w[:3] == ["fcget", "data", exp]) if inside else (w[1] == "refused" or (blk == 0 and w[:3] == ["fcget", "data", exp]))
+                if not ok:
+                    R.violation("fcache_get(policy %d, pos %d) on a file of %d bytes answered '%s'; the file holds %s there (%s)" %
+                                (pol, pos, len(data), o[:100], exp[:64] or "nothing", "inside the file" if inside else "block behind the end of the file"),
+                                dict(stream="hist/fcget", file_size=len(data), policy=pol, pos=pos, n=n, answer=o[:200]))
+                    failed = True
+                    break
+    compared += len(fimpl)
+    if first_model_diff is None and not failed:
+        fd = kdf.diff_streams(fimpl, fmodel)
+        if fd is not None:
+            first_model_diff = dict(layout="fcget", index=fd, op=[l for l, m in zip(fl, fmeta) if m][fd] if fd < len(fq) else None,
+                                    impl=fimpl[fd][:120] if fd < len(fimpl) else None, model=fmodel[fd][:120] if fd < len(fmodel) else None)
+    model_lines_total += len(fmodel)
     if (proof["broken"] or first_model_diff is not None) and not failed:
         R.violation("proof obligation or correspondence broken: theorems %s; first differing line %s" % (proof["broken"], first_model_diff),
                     dict(stream="hist", broken_theorems=proof["broken"], lean_log=proof["log"][-1500:], first_diff=first_model_diff),
